@@ -32,5 +32,42 @@ META = {
   "note": "Trusted: MIR reveals opaque iterator types; classification table in rules/order.py. Not decided: user extern functions, time limits, order of returned Vecs (treated as sets). Exhaustive loops are assumed to have order-independent bodies except for the fact-store rules shared with C05.",
   "design_ref": "DESIGN.md §3 C11",
  },
+
+ "C01": {
+  "technique": "static analysis: abstract evaluation of the payload generators over MIR into a token sequence compared with a specification oracle; dominance / edge-cut rules (PASS) for the chain walk and proof check; positional may-depend analysis (WIRE) of call arguments; HIR match-table rules for version dispatch and decode gates; who-may-construct rule for the verified token type",
+  "text": "Decides, for every token and every mutation at once, structural necessary conditions of verification soundness: the signed byte layout of each of the 7 payload generators equals the specification (every input bound, in order, with tags and widths); sign/verify dispatch by version with Err default; verify_inner cannot return Ok without the authority check under the root key, a successful verify_block_signature on every loop iteration with the previous block's next key and signature, and a successful proof check; strict ed25519 over exactly 64 bytes; decode gates; a Biscuit is only built from a verified container. It does not decide cryptographic unforgeability.",
+  "note": "Trusted: oracle/signature_layout.json (written from the specification), ed25519-dalek / p256 primitives, rustc MIR. Not decided: security of the signature schemes, protobuf canonicity, user RootKeyProvider.",
+  "design_ref": "DESIGN.md §3 C01",
+ },
+ "C02": {
+  "technique": "static analysis: symbolic comparison (MIR def-chains) of the values signed with the values stored, signer/verifier generator agreement, layout-vs-specification oracle, writer/reader field coverage by may-depend analysis",
+  "text": "Decides structural necessary conditions of completeness and of interoperable signing for all operation sequences: what is stored in each new block is exactly what was signed (payload, next key, version, external signature, previous = last block's signature), signer and verifier use the same generator per (block kind, version), the generators equal the specification's byte layout, seal signs what verify checks, to_proto/deserialize cover every wire field symmetrically, the third-party signer signs payload ++ previous signature ++ version. It does not decide byte-exact re-serialisation.",
+  "note": "Trusted: oracle/signature_layout.json, prost. Not decided: byte equality of re-encoding, validity of signatures produced by dependencies.",
+  "design_ref": "DESIGN.md §3 C02",
+ },
+ "C07": {
+  "technique": "static analysis: dominance rules (append only after key equality and external-signature verification), positional may-depend analysis of the verification arguments, layout oracle for the external payload, HIR rules for table isolation and re-verification guard",
+  "text": "Decides structural necessary conditions of C07 for all tokens/positions: a third-party block is appended only after the expected-key test and verify_external_signature over (payload, last block signature, version 1) succeeded; the external payload layout binds payload and previous signature; chain verification re-checks every external signature against the actual previous block and the block signature covers the external signature; third-party blocks never touch the token's symbol/public-key tables on any path (verified append, unverified append, reload, authorizer load, signer).",
+  "note": "Trusted: layout oracle, rustc. Not decided: unforgeability; the unverified API defers signature checks to verify().",
+  "design_ref": "DESIGN.md §3 C07",
+ },
+ "C08": {
+  "technique": "static analysis: must-pass (dominance) rules on the secret requirement, HIR match-table rules on TokenNext, call-graph reachability of the gated container operations from every public extension path, layout oracle and may-depend rules for seal",
+  "text": "Decides structural necessary conditions of finality for all tokens: every extension path (13 public paths on Biscuit/UnverifiedBiscuit) reaches a container operation that returns only after TokenNext::keypair() succeeded, which is Err(AlreadySealed) for a seal; third-party requests are refused on sealed containers; seal signs the specified payload of the last block with the carried secret, stores Seal, preserves blocks; sealed verification checks the seal and still verifies every block.",
+  "note": "Trusted: layout oracle, rustc. Not decided: behavioural equality of sealed and unsealed authorization.",
+  "design_ref": "DESIGN.md §3 C08",
+ },
+ "C12": {
+  "technique": "static analysis: sibling-agreement rules over MIR/HIR on every path that threads the symbol and public-key tables (which mutators are called, on what, with which arguments, results propagated), with the reload path as reference; dominance rules for BlockBuilder::build offsets",
+  "text": "Decides structural necessary conditions of in-memory/reloaded agreement for all operation sequences: each first-party path extends the token tables by exactly the new block's symbols and keys through the overlap-checking operations after a disjointness test, each third-party path leaves them untouched, the reload path does the same per block kind, blocks are built against a copy and split at offsets read first, printing picks the table by external key. It does not decide equality of authorization results.",
+  "note": "Trusted: rustc; extract_blocks as the reference behaviour. Not decided: behavioural equality, byte-level round trip.",
+  "design_ref": "DESIGN.md §3 C12",
+ },
+ "C15": {
+  "technique": "static analysis: may-depend analysis of revocation_identifiers, preservation and freshness wiring rules, per-algorithm non-malleability table (required callee / required rejection), layout oracle for signature chaining",
+  "text": "Decides structural necessary conditions of C15 for all tokens: identifiers are exactly the signature bytes in container order; append/seal preserve existing blocks; default paths draw a fresh OsRng key pair per block; per algorithm the verifier must reject every second encoding of a valid signature (ed25519 strict + exact length holds; P-256 lacks a high-S rejection: known finding, demonstrated); v1 payloads and the seal cover the previous signature and the chained scheme is monotone.",
+  "note": "Trusted: dependency behaviour as read in vendored sources. Not decided: uniqueness across tokens (RNG quality).",
+  "design_ref": "DESIGN.md §3 C15",
+ },
 }
 NOT_APPLICABLE = {}
